@@ -11,6 +11,7 @@ def programs(tier, seed):
     P += families.fam_equal_values()
     P += families.fam_edge_templates()
     P += families.fam_innode_partial_and_multi_input()
+    P += families.fam_output_designation()
     if tier == 'thorough':
         P += families.fam_vectorization(seed + 1, n=120, max_per_type=4)
         P += families.fam_hierarchy()
@@ -52,6 +53,13 @@ def run(tier='quick', seed=0, only=None, verbose=False):
     if only:
         dj = [j for j in dj if only in j['key']]
     tvjobs.run_tv_jobs(rep, dj, verbose=verbose, fn=c09.job_fn)
+    # a gamma-kernel edge, a plain delayed edge and an undelayed edge out of one vectorized variable (harness of C11)
+    from . import c11
+    gj = [dict(key=f"{k}|vec={v}|euler", spec=s, vectorize=v, solver='euler') for k, s in families.fam_gamma_fixed()
+          if k.startswith('F11x:mixed-') for v in (True, False)]
+    if only:
+        gj = [j for j in gj if only in j['key']]
+    tvjobs.run_tv_jobs(rep, gj, verbose=verbose, fn=c11.job_fn)
     return rep.finish(rule='programs = generated circuits (1-2 node types x 1..N nodes, weight patterns) compiled with '
                            'vectorize=True and =False; one SMT obligation per frontend state variable and setting: '
                            'emitted derivative == reference semantics for all states/parameters; both settings equal '
